@@ -185,6 +185,14 @@ def vkey(o):
         return ("unreadable", repr(o))
 
 
+def dkey(o):
+    """an object "unchanged": type, shape and bit patterns (describe), NaN = NaN; unknown kinds by their repr"""
+    d = describe(o)
+    if d is None:
+        return ("unknown kind", "%s.%s" % (type(o).__module__, type(o).__name__), repr(o))
+    return tuple("nan" if x != x else float(x).hex() for x in d)
+
+
 def enc_n3(t):
     return pl(nl(t[0]), nl(t[1]), nl(t[2]))
 
@@ -197,7 +205,32 @@ SEED_STATES = ["EVALUATED", "EVALUATED", "EVALUATED", "EVALUATED", "EMPTY", "IN_
 SESSION_STEPS = [-1, 1, 2, 2, 3, 3, 4, 5, 5, 7, 10, 0, -2, -3]
 
 
-def gen_requests(rng, n, dim, m, p_accept, p_exotic=0.0):
+IND_STATES = ["EMPTY", "IN_PROGRESS", "EVALUATED", "EVALUATED", "FAILED"]
+STALE = [[-555.5], [-555.5, 444.25], [], [0.0], ["nan"]]
+
+
+def gen_presentation(rng, via_ok):
+    """How the Individual object of a request looks when it is handed to the wrapper (red team round 3): the model's request is
+    (vector, hook answer, objective value) and NOTHING else, so state, old costs, the identity of the object and the path it took
+    before must not matter.  {"ind": fresh | reuse (the object of the previous request of the case, `vector` assigned anew),
+    "state": forced state, "stale": costs left on the object, "via": job | direct (overrides the case's default)}"""
+    o = {"ind": rng.choice(["fresh", "reuse", "reuse"])}
+    if rng.random() < 0.75:
+        o["state"] = rng.choice(IND_STATES)
+        if o["state"] == "EVALUATED" or rng.random() < 0.3:
+            o["stale"] = rng.choice(STALE)
+    if via_ok and rng.random() < 0.4:
+        o["via"] = rng.choice(["job", "direct"])
+    return o
+
+
+def gen_true(rng, m):
+    """an objective VALUE of one of the shapes the unchanged code hands through (it never looks at it): see gen_answer"""
+    h = gen_answer(rng, m, p_special=0.25, p_falsy=0.1, p_nan=0.1)
+    return h
+
+
+def gen_requests(rng, n, dim, m, p_accept, p_exotic=0.0, p_pres=0.0, p_tshape=0.0, via_ok=False):
     pool = [[rng.choice(VGRID) for _ in range(dim)] for _ in range(max(2, n // 3))]
     reqs = []
     for _ in range(n):
@@ -209,24 +242,29 @@ def gen_requests(rng, n, dim, m, p_accept, p_exotic=0.0):
             hook = [] if r < 0.05 else [0.0] * m if r < 0.12 else list(true) if r < 0.2 else [rng.choice(CGRID) + 1000.0 for _ in range(m)]
             if rng.random() < p_exotic:
                 hook = gen_answer(rng, m)
-        reqs.append(["req", vec, hook, true])
+        if p_tshape and rng.random() < p_tshape:
+            true = gen_true(rng, m)
+        ev = ["req", vec, hook, true]
+        if p_pres and rng.random() < p_pres:
+            ev.append(gen_presentation(rng, via_ok and answer_iterable(hook) and answer_iterable(true)))
+        reqs.append(ev)
     return reqs
 
 
 SPECIAL = [float("nan"), float("inf"), float("-inf"), 0.0, -0.0, 1e308, -1.7976931348623157e308, 5e-324, 1e-300, 2.0 ** 53, 1000.5]
 
 
-def gen_answer(rng, m):
+def gen_answer(rng, m, p_special=0.6, p_falsy=0.25, p_nan=0.3):
     """a hook answer of one of the shapes the wrapper accepts (it only tests `is not None`): containers of every kind, falsy values,
     NaN / infinities / huge values inside them"""
     def val():
-        return rng.choice(SPECIAL) if rng.random() < 0.6 else rng.choice(CGRID) + 1000.0
+        return rng.choice(SPECIAL) if rng.random() < p_special else rng.choice(CGRID) + 1000.0
     t = rng.choice(["list", "list", "list", "scalar", "npscalar", "np0", "np1", "np1", "np2", "npcol", "tuple", "listnp", "intlist"])
     k = rng.choice([m, m, m, 1, 2, 3, 0]) if t in ("list", "np1", "np2", "npcol", "tuple") else (1 if t in ("scalar", "npscalar", "np0") else rng.choice([1, m, 2]))
     r = rng.random()
-    if r < 0.25:
+    if r < p_falsy:
         v = [0.0] * k                                               # falsy: 0.0, [], array([0.]), [0], (0.0,) ...
-    elif r < 0.55:
+    elif r < p_falsy + p_nan:
         v = [val() for _ in range(k)]
         if k:
             v[rng.randrange(k)] = float("nan")                      # a NaN somewhere
@@ -255,8 +293,11 @@ def gen_plain(rng):
     dim = rng.choice([1, 1, 2, 3])
     m = rng.choice([1, 1, 2])
     p_exotic = rng.choice([0.0, 0.0, 0.3, 0.7])
-    events = gen_requests(rng, n, dim, m, p_accept, p_exotic)
-    return {"stream": "plain", "has_hook": rng.random() < 0.8, "via_job": ts != 0 and rng.random() < 0.4 and all(answer_iterable(e[2]) for e in events),
+    p_pres = rng.choice([0.0, 0.3, 0.7, 1.0])
+    p_tshape = rng.choice([0.0, 0.0, 0.3, 0.7])
+    events = gen_requests(rng, n, dim, m, p_accept, p_exotic, p_pres, p_tshape, via_ok=ts != 0)
+    return {"stream": "plain", "has_hook": rng.random() < 0.8,
+            "via_job": ts != 0 and rng.random() < 0.4 and all(answer_iterable(e[2]) and answer_iterable(e[3]) for e in events),
             "cur": 0, "slots": [gen_slot(rng, subject, ts, rng.random() < (0.2 if p_exotic == 0.0 else 0.6), n, p_train_ok)],
             "warmup": [], "events": events}
 
@@ -283,6 +324,8 @@ def gen_session(rng):
     p_accept = rng.choice([0.0, 0.0, 0.3, 0.5, 0.8])
     p_train_ok = rng.choice([1.0, 1.0, 0.7, 0.3])
     p_exotic = rng.choice([0.0, 0.0, 0.3, 0.7])
+    p_pres = rng.choice([0.0, 0.3, 0.7, 1.0])
+    p_tshape = rng.choice([0.0, 0.0, 0.3, 0.7])
     subjects = [rng.choice(["scikit", "scikit", "scripted", "scripted", "eval"]) for _ in range(n_slots)]
     if all(x == "eval" for x in subjects):
         subjects[-1] = "scikit"
@@ -294,11 +337,11 @@ def gen_session(rng):
         if subjects[c] == "eval":
             c = rng.choice(pred)
             if c != cur and rng.random() < 0.7:
-                events += gen_requests(rng, rng.randint(0, 4), dim, m, p_accept, p_exotic)
+                events += gen_requests(rng, rng.randint(0, 4), dim, m, p_accept, p_exotic, p_pres, p_tshape, via_ok=True)
             events.append(["use", c])
         last_seed = gen_seed(rng, dim, m, [])
         events.append(["seed", last_seed])
-    reqs = gen_requests(rng, n, dim, m, p_accept, p_exotic)
+    reqs = gen_requests(rng, n, dim, m, p_accept, p_exotic, p_pres, p_tshape, via_ok=True)
     for r in reqs:
         while rng.random() < 0.22:
             u = rng.random()
@@ -317,7 +360,12 @@ def gen_session(rng):
         events.append(r)
     cut = rng.randint(1, max(1, len(events) // 2)) if rng.random() < 0.4 else 0
     has_zero = any(sl["train_step"] == 0 for sl in slots) or any(e[0] == "set_step" and e[1] == 0 for e in events)
-    return {"stream": "session", "has_hook": rng.random() < 0.85, "via_job": (not has_zero) and rng.random() < 0.3 and all(answer_iterable(e[2]) for e in events if e[0] == "req"), "cur": cur,
+    if has_zero:                                     # train_step 0 raises after counting: only direct requests then
+        for e in events:
+            if e[0] == "req" and len(e) > 4:
+                e[4].pop("via", None)
+    return {"stream": "session", "has_hook": rng.random() < 0.85,
+            "via_job": (not has_zero) and rng.random() < 0.3 and all(answer_iterable(e[2]) and answer_iterable(e[3]) for e in events if e[0] == "req"), "cur": cur,
             "slots": slots, "warmup": events[:cut], "events": events[cut:]}
 
 
@@ -345,7 +393,7 @@ def run(ctx):
             s = self.surrogate
             self.n_obj += 1
             s.rec.obj.append((list(individual.vector), len(s.x_data), s.eval_counter))
-            return list(self.current[3])
+            return build_answer(self.current[3])            # a new object per call, of the scripted type and shape
 
     class HookProblem(BaseProblem):
         def predict(self, individual):
@@ -399,6 +447,9 @@ def run(ctx):
     # different retrain decision (`q % train_step == 0`) than eval_counter did
     SEP = ["len_x_data", "requests_to_wrapper", "predict_counter", "counter_before_increment",
            "objective_calls_on_problem", "evaluations_since_last_train_call", "evaluations_since_start_of_case"]
+    pres = {k: 0 for k in ("fresh", "reuse", "state EMPTY", "state IN_PROGRESS", "state EVALUATED", "state FAILED", "via job", "direct",
+                           "direct, EVALUATED, costs differ from the true value")}
+    truekinds = {}
     sep = {"retrain_decisions": 0, "len_x_data_differs_from_eval_counter": 0, "cases_with_such_a_decision": 0,
            "trains_with_len_x_data_differing": 0,
            "quantity_differs": {k: 0 for k in SEP}, "decision_would_differ": {k: 0 for k in SEP}}
@@ -444,6 +495,7 @@ def run(ctx):
         job = Job(problem)
         rets = []
         case_flag = {"hit": False}
+        last = {"ind": None}
 
         def state_of(w):
             return (bool(w.trained), w.eval_counter, w.predict_counter, list(w.x_data), [vkey(y) for y in w.y_data],
@@ -464,12 +516,33 @@ def run(ctx):
                 kind = ev[0]
                 ret = exc = None
                 if kind == "req":
-                    _, vec, hook, true = ev
+                    vec, hook, true = ev[1:4]
+                    opts = ev[4] if len(ev) > 4 else {}
+                    true_obj = build_answer(true)
                     problem.current = ev
                     a["requests"] += 1
-                    ind = Individual(list(vec))
+                    # the Individual object as the caller presents it: the model's request is (vector, hook answer, true value) only
+                    if opts.get("ind") == "reuse" and last["ind"] is not None:
+                        ind = last["ind"]
+                        ind.vector = list(vec)             # moved to a new point, everything else as the earlier request left it
+                    else:
+                        ind = Individual(list(vec))
+                    if "state" in opts:
+                        ind.state = Individual.State[opts["state"]]
+                    if "stale" in opts:
+                        ind.costs = [unjv(x) for x in opts["stale"]]
+                    via = opts.get("via", "job" if case["via_job"] else "direct") == "job"
+                    if via and ind.state == Individual.State.EVALUATED:
+                        ind.state = Individual.State.EMPTY          # Job.evaluate skips EVALUATED individuals: that is no request
+                    last["ind"] = ind
+                    pres["reuse" if opts.get("ind") == "reuse" else "fresh"] += 1
+                    pres["state " + ind.state.name] += 1
+                    pres["via job" if via else "direct"] += 1
+                    pres["direct, EVALUATED, costs differ from the true value"] += (not via) and ind.state == Individual.State.EVALUATED and dkey(ind.costs) != dkey(true_obj)
+                    tk = "list" if isinstance(true, list) else true["t"]
+                    truekinds[tk] = truekinds.get(tk, 0) + 1
                     try:
-                        if case["via_job"]:
+                        if via:
                             job.evaluate(ind)
                             ret = ind.costs
                         else:
@@ -530,8 +603,8 @@ def run(ctx):
                 if subject == "eval":
                     if n_obj != 1 or rec.obj[-1][0] != vec:
                         fail("pass-through: objective called %d times for one request" % n_obj, case, pos, clause="passthrough objective calls", **kw)
-                    if exc is None and vkey(ret) != vkey(true):
-                        fail("pass-through: returned %r, true objective value %r" % (ret, true), case, pos, clause="passthrough value", **kw)
+                    if exc is None and dkey(ret) != dkey(true_obj):
+                        fail("pass-through: returned %r, true objective value %r" % (ret, true_obj), case, pos, clause="passthrough value", **kw)
                     if ec != ec_b + 1 or pc != pc_b:
                         fail("pass-through: eval_counter %d->%d predict_counter %d->%d" % (ec_b, ec, pc_b, pc), case, pos, clause="passthrough counter", **kw)
                     if sur.x_data != x_b or ykeys(sur.y_data) != y_b:
@@ -554,16 +627,19 @@ def run(ctx):
                         fail("train() called by a predicted request", case, pos, clause="train on prediction", **kw)
                 else:
                     a["want_x"].append(vec)
-                    a["want_y"].append(vkey(true))
+                    a["want_y"].append(vkey(true_obj))
                     if n_obj != 1 or rec.obj[-1][0] != vec:
                         fail("true objective evaluated %d times for one request" % n_obj, case, pos, clause="objective calls", **kw)
-                    if exc is None and vkey(ret) != vkey(true):
-                        fail("true evaluation returned %r, objective value %r" % (ret, true), case, pos, clause="value changed", **kw)
+                    if exc is None and dkey(ret) != dkey(true_obj):             # "returned unchanged": type, shape and bits
+                        fail("true evaluation returned %r, objective value %r" % (ret, true_obj), case, pos, clause="value changed", **kw)
                     if ec != ec_b + 1 or pc != pc_b:
                         fail("true evaluation not counted exactly once: eval %d->%d predict %d->%d" % (ec_b, ec, pc_b, pc), case, pos, clause="evaluation counter", **kw)
-                    if sur.x_data != x_b + [vec] or ykeys(sur.y_data) != y_b + [vkey(true)]:
+                    if sur.x_data != x_b + [vec] or ykeys(sur.y_data) != y_b + [vkey(true_obj)]:
                         fail("(vector, value) not appended exactly once at the end: |x| %d->%d |y| %d->%d" % (len(x_b), len(sur.x_data), len(y_b), len(sur.y_data)),
                              case, pos, clause="training data append", **kw)
+                    elif dkey(sur.y_data[-1]) != dkey(true_obj):
+                        fail("the value appended to the training set is %r, the objective value is %r" % (sur.y_data[-1], true_obj),
+                             case, pos, clause="training value changed", **kw)
                     elif rec.obj[-1][1] != len(x_b):
                         fail("training data extended before the objective was called", case, pos, clause="append before call", **kw)
                     if ts == -1 or ts > 0:
@@ -624,7 +700,7 @@ def run(ctx):
     def enc_event(ev):
         k = ev[0]
         if k == "req":
-            return "ereq %s" % pl(enc_vec(ev[1]), optl(ev[2], lambda h: enc_vec(build_answer(h))), enc_vec(ev[3]))
+            return "ereq %s" % pl(enc_vec(ev[1]), optl(ev[2], lambda h: enc_vec(build_answer(h))), enc_vec(build_answer(ev[3])))
         if k == "seed":
             return "ESeed %s" % ll(ev[1], lambda i: pl(enc_vec(i[0]), enc_vec(i[1])))
         if k == "train":
@@ -807,6 +883,37 @@ def run(ctx):
     corpus.append(plain("scikit", -1, [A(j, h, 100 + j) for j, h in enumerate(ANSWERS[:20])], trained0=False))
     corpus.append(plain("scikit", 4, [A(j, h, 100 + j) for j, h in enumerate(ANSWERS[14:40])], trained0=True, has_hook=False))
     corpus.append(plain("eval", 1, [A(j, h, 100 + j) for j, h in enumerate(ANSWERS[30:50])]))
+    # red team round 3, a: the Individual object of a request in every state, with costs left on it, the same object again after its
+    # vector was assigned anew, objects that went through Job.evaluate before (state EVALUATED, costs = the old value) - the request
+    # is (vector, hook answer, objective value) and nothing else, for the pass-through and for the predicting wrappers
+    def P(v, h, t, **o):
+        return ["req", [float(v)], None if h is None else [float(h)], t if isinstance(t, dict) else [float(x) for x in (t if isinstance(t, list) else [t])], o]
+    def tour(h):
+        return [P(1, h, 10, state="EMPTY"), P(2, h, 20, state="IN_PROGRESS"), P(3, h, 30, state="EVALUATED", stale=[-555.5]),
+                P(4, h, 40, state="FAILED", stale=[-555.5]), P(5, h, 50, state="EVALUATED", stale=[50.0]), P(6, h, 60, state="EVALUATED", stale=[]),
+                P(7, h, 70, via="job"), P(8, h, 80, ind="reuse"), P(9, h, 90, ind="reuse"), P(9, h, 91, ind="reuse"),
+                P(10, h, 100, ind="reuse", via="job", state="FAILED"), P(11, h, 110, ind="reuse"), P(12, h, 120, ind="reuse", state="IN_PROGRESS"),
+                P(13, h, 130, ind="reuse", state="EVALUATED", stale=["nan"]), P(14, h, 140, ind="reuse", state="EMPTY", stale=[-555.5, 444.25]),
+                P(14, h, 141, ind="fresh", state="EVALUATED", stale=[140.0])]
+    corpus += [plain("eval", 1, tour(None)), plain("eval", 1, tour(7), via_job=True),
+               plain("scikit", 2, tour(None), trained0=True), plain("scikit", 3, tour(7), trained0=False),
+               plain("scripted", -1, tour(None), trained0=True, via_job=True), plain("scripted", 1, tour(7), train_script=[False, True] * 35),
+               plain("scikit", 2, [e if j % 3 else e[:2] + [[7.0]] + e[3:] for j, e in enumerate(tour(None))], trained0=True),
+               plain(slots=[slot("eval", -1), slot("scikit", 2, trained0=True)],
+                     events=tour(None)[:8] + [["use", 1]] + tour(None)[8:12] + [["use", 0]] + tour(None)[12:])]
+    # b: objective VALUES of every shape the unchanged code hands through untouched (rule 11): list, tuple, Python / numpy scalar, 0-d,
+    # 1-d, (1, n), (n, 1) arrays, lists of numpy scalars / ints; through Job.evaluate only the iterable ones (calc_signed_costs maps)
+    TRUES = [[10.5], [10.5, -3.0], [], {"t": "tuple", "v": [10.5]}, {"t": "tuple", "v": [10.5, -3.0]}, {"t": "tuple", "v": []},
+             {"t": "np1", "v": [10.5]}, {"t": "np1", "v": [10.5, -3.0]}, {"t": "np1", "v": []}, {"t": "np1", "v": [nan_, inf_]},
+             {"t": "npscalar", "v": [10.5]}, {"t": "npscalar", "v": [0.0]}, {"t": "scalar", "v": [10.5]}, {"t": "scalar", "v": [0.0]},
+             {"t": "scalar", "v": [nan_]}, {"t": "np0", "v": [10.5]}, {"t": "np2", "v": [10.5, -3.0]}, {"t": "np2", "v": [10.5]},
+             {"t": "npcol", "v": [10.5, -3.0]}, {"t": "npcol", "v": [10.5]}, {"t": "listnp", "v": [10.5]}, {"t": "listnp", "v": [10.5, -3.0]},
+             {"t": "intlist", "v": [7.0]}, {"t": "intlist", "v": [0.0, -3.0]}, [inf_], ["-inf", 1e308], [nan_]]
+    for subject, ts, via, tr0 in (("eval", 1, False, False), ("scikit", 2, False, False), ("scikit", 5, False, True), ("scripted", 1, False, False),
+                                  ("eval", 1, True, False), ("scikit", 3, True, False), ("scripted", -1, True, True)):
+        trues = [t for t in TRUES if answer_iterable(t)] if via else TRUES
+        corpus.append(plain(subject, ts, [["req", [float(j)], [7.0] if (tr0 and j % 4 == 3) else None, t] for j, t in enumerate(trues)],
+                            trained0=tr0, via_job=via))
     for case in corpus:
         add(case)
     for k in range(n_plain):
@@ -826,7 +933,7 @@ def run(ctx):
                 "model starts from the observed snapshot. A case is non-trivial when it has more than one event; distinct = distinct "
                 "(stream, hook, length, per wrapper: subject, starting and final train_step / eval_counter / training-set size, "
                 "predict_counter, train-call counters)") % (sorted(set(TRAIN_STEPS)), sorted(set(SESSION_STEPS)))
-    ctx.extra.update({"distribution": hist, "look_alike_quantities_at_retrain_decisions": sep})
+    ctx.extra.update({"individual_objects_presented_to_the_wrapper": pres, "objective_value_kinds": truekinds, "distribution": hist, "look_alike_quantities_at_retrain_decisions": sep})
 
 
 LEVEL_TEXT = ("Machine-checked Coq theorems over a state-machine model of SurrogateModelEval.evaluate, SurrogateModelPredict.evaluate / "
